@@ -171,7 +171,7 @@ def run(rep, tier, seed):
             by_id[tid] = ({"A": "len %d" % na, "B": "len %d" % nb, "md": 1, "off": c["off"]}, {"clock": [clock.t0, clock.dt]}, "omitted")
     # sensitivity: corrupted copies of good traces must be rejected by P (binding is not vacuous)
     probes = _probes(traces)
-    rejects = core.validate("sync", "Trace_Sync", traces + probes, chunk=20000)
+    rejects = core.validate("sync", "Trace_Sync", traces + probes)
     rejected_ids = {x[0] for x in rejects}
     missing = [p["id"] for p in probes if p["id"] not in rejected_ids]
     if missing or not probes:
